@@ -654,7 +654,7 @@ def returns_var(ret, var):
     return isinstance(v, ast.Name) and v.id == var
 
 
-def widths(ctx, report):
+def widths(ctx, report, RULE='C10.R3'):
     model, it = ctx.model, ctx.interp
     for c in model.repo_classes():
         if c.is_subclass_of('NByteEnumParsable') and not c.abstract_methods - {'compose'}:
@@ -662,7 +662,7 @@ def widths(ctx, report):
                 continue
             ec = it.const_call(c, 'get_enum_class')
             bn = it.const_call(c, 'get_byte_num')
-            report.count('C10.R3')
+            report.count(RULE)
             if not (isinstance(ec, ClassV) and isinstance(ec.cls, ClassInfo) and isinstance(bn, int)):
                 report.undecided.append('%s: enum class / byte num not foldable' % c.name)
                 continue
@@ -670,9 +670,9 @@ def widths(ctx, report):
             if cs is None:
                 report.undecided.append('%s: code size of %s not foldable' % (c.name, ec.cls.name))
             elif cs != bn:
-                report.add('C10.R3', c.construct + '@width', 'factory reads %d bytes, %s members compose with %d' % (bn, ec.cls.name, cs))
+                report.add(RULE, c.construct + '@width', 'factory reads %d bytes, %s members compose with %d' % (bn, ec.cls.name, cs))
             else:
-                report.sample({'rule': 'C10.R3', 'factory': c.name, 'enum': ec.cls.name, 'read': bn, 'written': cs}, 20)
+                report.sample({'rule': RULE, 'factory': c.name, 'enum': ec.cls.name, 'read': bn, 'written': cs}, 20)
     for c in model.repo_classes():
         if not c.is_subclass_of('ArrayBase') or c.resolve('get_param') is None or c.resolve('get_param').abstract or c.abstract_methods:
             continue
@@ -681,13 +681,13 @@ def widths(ctx, report):
             continue
         ic, fb = prm.attrs.get('item_class'), prm.attrs.get('fallback_class')
         if prm.cls.name == 'VectorParamEnumCodeNumeric':
-            report.count('C10.R3')
+            report.count(RULE)
             wi = it.const_call(ic.cls, 'get_byte_num') if isinstance(ic, ClassV) and isinstance(ic.cls, ClassInfo) else None
             wf = it.const_call(fb.cls, 'get_byte_num') if isinstance(fb, ClassV) and isinstance(fb.cls, ClassInfo) else None
             if isinstance(wi, int) and isinstance(wf, int) and wi != wf:
-                report.add('C10.R3', c.construct + '@fallback', 'item class reads %d bytes, fallback class %d' % (wi, wf))
+                report.add(RULE, c.construct + '@fallback', 'item class reads %d bytes, fallback class %d' % (wi, wf))
             elif not isinstance(wi, int) or not isinstance(wf, int):
-                report.add('C10.R3', c.construct + '@fallback', 'VectorParamEnumCodeNumeric needs fixed-width item and fallback classes (get_item_size uses the fallback width)')
+                report.add(RULE, c.construct + '@fallback', 'VectorParamEnumCodeNumeric needs fixed-width item and fallback classes (get_item_size uses the fallback width)')
 
 
 def code_size(it, enum_cls):
